@@ -501,7 +501,7 @@ func MutateStatic(t *sim.T, m *StaticModel, focus FaultFocus) string {
 		if col < 0 {
 			return ""
 		}
-		v := []string{"0", "-1", "1", "00", "2147483647", "2147483648", "-2147483648", "4294967295", "4294967296", "9223372036854775807", "9223372036854775808", "0.0", "-0.0", "1e9", "00:00:00", "24:00:00", "23:59:59", "99:59:59", "0:0:0", "100:00:00"}[t.Choose(20)]
+		v := []string{"0", "-1", "1", "00", "2147483647", "2147483648", "-2147483648", "4294967295", "4294967296", "9223372036854775807", "9223372036854775808", "0.0", "-0.0", "1e9", "00:00:00", "24:00:00", "23:59:59", "99:59:59", "0:0:0", "100:00:00", "1:2:3:4", "00:00:00:00", "1:2:3:", ":::1", "-1:00:00", "00:60:60", "1::2", "7:5"}[t.Choose(28)]
 		r := t.Choose(len(tb.Rows))
 		setCell(tb, r, col, v)
 		if tb.Name == "frequencies.txt" && t.Chance(1, 2) {
